@@ -12,3 +12,14 @@ pub mod f64;
 
 mod extensions;
 pub use extensions::{CubeExtension, QuadExtension};
+
+/// Runtime-verification hook (feature `verif-hooks`, off by default): logical step bound for the
+/// binary-GCD inversion loops, so that non-termination shows up as a panic and not as a hang.
+#[cfg(feature = "verif-hooks")]
+#[inline(always)]
+pub(crate) fn verif_step(steps: &mut u32) {
+    *steps += 1;
+    if *steps > 4096 {
+        panic!("verif: inv step bound exceeded");
+    }
+}
